@@ -1,4 +1,5 @@
 import Postcard.Props.C05
+import Postcard.Props.C05Framed
 -- property theorems of C05: every one must depend only on propext / Classical.choice / Quot.sound
 #print axioms Postcard.slice_feed_fits
 #print axioms Postcard.slice_feed_overflow
@@ -12,3 +13,17 @@ import Postcard.Props.C05
 #print axioms Postcard.size_exact
 #print axioms Postcard.alloc_never_fails
 #print axioms Postcard.to_slice_ok_iff_size
+#print axioms Postcard.Slice.runBytes_threshold
+#print axioms Postcard.HVec.runBytes_threshold
+#print axioms Postcard.to_slice_crc_threshold
+#print axioms Postcard.to_slice_crc_buffer
+#print axioms Postcard.to_hvec_crc_threshold
+#print axioms Postcard.to_hvec_crc_within_capacity
+#print axioms Postcard.to_slice_cobs_cases
+#print axioms Postcard.to_slice_cobs_threshold
+#print axioms Postcard.to_slice_cobs_in_bounds
+#print axioms Postcard.to_hvec_cobs_cases
+#print axioms Postcard.to_hvec_cobs_threshold
+#print axioms Postcard.to_hvec_cobs_within_capacity
+#print axioms Postcard.to_slice_cobs_size_bounds
+#print axioms Postcard.framed_fixed_never_panic
